@@ -1,6 +1,6 @@
 SPECIFICATION Spec
 CONSTANTS
-  Inputs = {"zine", "simple3"}
+  Inputs = {"zine", "nested5"}
   MaxLen = 1
   Emit = TRUE
 INVARIANTS TypeOK EmitCase
